@@ -475,7 +475,7 @@ theorem fuelOK_prM : FuelOK prM 23 9 :=
   ⟨by norm_num [prM, prA], by norm_num [prM, prA], by norm_num [prM, prA], fun _ => by norm_num [prM, prA],
     by norm_num [prM, prA], by norm_num [prM, prA]⟩
 
-/-- `FuelOK` holds for the library's default parameter values (`L_min = 1e-5`, `L_max = 1e20`,
+/-- `FuelOK` holds for the library's DEFAULT `PANOCOCPParams` (panoc-ocp.hpp: `L_min = 1e-5`, `L_max = 1e20`,
     `min_linesearch_coefficient = 1/256`, estimated `L₀`) with the model's default fuel 4096:
     `nL = 84` (`2⁸⁴ ≥ 10²⁵`), `nτ = 9`, `(84+1)(9+3) + 1 = 1021 ≤ 4096` -/
 def prDefault : Params ℚ := { prA with Lmin := 1/100000, Lmax := 100000000000000000000, L0 := 0, lsFuel := 4096 }
